@@ -939,6 +939,13 @@ func (t *Transport) roundTrip(req *http.Request) (resp *http.Response, err error
 			closeBody(req)
 			return nil, fmt.Errorf("net/http: invalid trailer %s", err)
 		}
+
+		// Validate the method before a forced HTTP version hands the request
+		// to the HTTP/2 round tripper, which writes :method as it is.
+		if req.Method != "" && !validMethod(req.Method) {
+			closeBody(req)
+			return nil, fmt.Errorf("net/http: invalid method %q", req.Method)
+		}
 	}
 
 	if req.Header == nil {
